@@ -452,6 +452,14 @@ def r10_12(ctx: Ctx) -> None:
                           f"`{norm(c)}` converts a stored FILETIME to datetime without catching OverflowError: one member dated after year 9999 (any value from 2650467744000000000 "
                           "up, e.g. 2^63) makes list() raise, so no member of the archive can be listed", construct="unguarded FILETIME conversion")
     ctx.floor("R10.12", n, 1, "FILETIME conversions in the listing functions")
+    # the command line converts once more (to the local zone): the last hours of year 9999 have no local time east of UTC
+    cl = ctx.prog.func("cli", "Cli._run_list")
+    for c in [c for c in q.calls(cl) if attr_tail(c) == "astimezone"]:
+        guarded = any(isinstance(t, ast.Try) and any(c is x for st in t.body for x in ast.walk(st)) and
+                      any(h.type is None or "OverflowError" in norm(h.type) or "ValueError" in norm(h.type) or norm(h.type) == "Exception" for h in t.handlers) for t in walk(cl.node))
+        ctx.check(guarded, "R10.12", cl, c, "the local-time conversion of `l` cannot abort the listing",
+                  f"`{norm(c)}`: a member stamped in the last hours of year 9999 UTC (it passes the guard of list()) makes `py7zr l` die with 'year 10000 is out of range' in "
+                  "every zone east of UTC, exit 1, no member listed", construct="unguarded astimezone in the CLI")
 
 
 def run(ctx: Ctx) -> None:
